@@ -90,6 +90,7 @@ type world struct {
 	hash      uint64
 	waitEarly string
 	waitTms   int
+	handlerOn bool
 }
 
 func goid() uint64 {
@@ -124,6 +125,12 @@ func (w *world) hook(loc string) {
 	w.parked = append(w.parked, parkedG{lid, loc, ch})
 	w.mu.Unlock()
 	<-ch
+}
+
+func (w *world) handler(p any) {
+	w.mu.Lock()
+	w.handled = append(w.handled, fmt.Sprint(p))
+	w.mu.Unlock()
 }
 
 func (w *world) setViol(class, where, format string, a ...any) {
@@ -173,6 +180,15 @@ func (w *world) taskFn(i int) func() {
 			panic(errors.New(fmt.Sprintf("task %d error", i)))
 		case 3:
 			panic(panicStruct{i, "struct"})
+		case 5:
+			// a runtime.Error raised by the runtime itself
+			var m map[int]int
+			m[i] = 1
+		case 6:
+			var a []int
+			_ = a[i+3]
+		case 7:
+			panic(fmt.Errorf("task %d wrapped: %w", i, errors.New("inner")))
 		case 4:
 			// panic(nil) with the pre-go1.21 semantics golib's own go.mod (go 1.18) selects:
 			// recover() returns nil.  It is a panic by any reading, so it must neither kill
@@ -190,6 +206,12 @@ func panicText(i, k int) string {
 		return fmt.Sprintf("task %d error", i)
 	case 3:
 		return fmt.Sprint(panicStruct{i, "struct"})
+	case 5:
+		return "assignment to entry in nil map"
+	case 6:
+		return fmt.Sprintf("runtime error: index out of range [%d] with length 0", i+3)
+	case 7:
+		return fmt.Sprintf("task %d wrapped: inner", i)
 	}
 	return ""
 }
@@ -206,7 +228,7 @@ func (w *world) submitter(l *goz.Limiter) {
 			w.mu.Lock()
 			w.submitted[i] = true
 			w.subState = fmt.Sprintf("go:%d", i)
-			if k := w.tasks[i].panicK; k != 0 && k != 4 {
+			if k := w.tasks[i].panicK; k != 0 && k != 4 && w.handlerOn {
 				w.expected = append(w.expected, panicText(i, k))
 			}
 			w.mu.Unlock()
@@ -214,6 +236,16 @@ func (w *world) submitter(l *goz.Limiter) {
 			w.mu.Lock()
 			w.subState = ""
 			w.mu.Unlock()
+		case "SetHandler":
+			// the handler in force when Go is called is the one the task gets
+			w.mu.Lock()
+			w.handlerOn = op.K == 1
+			w.mu.Unlock()
+			if op.K == 1 {
+				l.SetPanicHandler(w.handler)
+			} else {
+				l.SetPanicHandler(nil)
+			}
 		case "WaitT":
 			// timed Wait: may legitimately return before the tasks have finished; what it
 			// leaves behind (a waiter goroutine) must not disturb later calls
@@ -318,11 +350,8 @@ func runCase(t *testing.T, c *sim.Case, script []int16, strict bool) (*sim.Viola
 			}
 			l := goz.NewLimiter(limit)
 			if c.P("handler") == 1 {
-				l.SetPanicHandler(func(p any) {
-					w.mu.Lock()
-					w.handled = append(w.handled, fmt.Sprint(p))
-					w.mu.Unlock()
-				})
+				w.handlerOn = true
+				l.SetPanicHandler(w.handler)
 			}
 			syield.Hook = w.hook
 			go w.submitter(l)
@@ -537,7 +566,7 @@ func runCase(t *testing.T, c *sim.Case, script []int16, strict bool) (*sim.Viola
 				break
 			}
 		}
-		if v == nil && c.P("handler") == 1 {
+		if v == nil {
 			a, b := append([]string{}, w.handled...), append([]string{}, w.expected...)
 			sort.Strings(a)
 			sort.Strings(b)
@@ -574,16 +603,20 @@ func gen(r *sim.Rng, tier string) *sim.Case {
 	panicPct := []int{0, 20, 50, 100}[r.N(4)]
 	blockPct := []int{0, 20, 60}[r.N(3)]
 	var prog []sim.Op
-	timed := r.Pct(40) // swarm: some scripts use timed waits
+	timed := r.Pct(40)     // swarm: some scripts use timed waits
+	switching := r.Pct(25) // ... and some switch the panic handler between submissions
 	for i := 0; i < nScript; i++ {
 		t := sim.Op{Op: "Task", K: r.N(3)}
 		if r.Pct(panicPct) {
-			t.V = r.Range(1, 4)
+			t.V = r.Range(1, 7)
 		}
 		if r.Pct(blockPct) {
 			t.D = r.Range(1, 2)
 		}
 		c.Ops = append(c.Ops, t)
+		if switching && r.Pct(20) {
+			prog = append(prog, sim.Op{Op: "SetHandler", K: r.N(2)})
+		}
 		prog = append(prog, sim.Op{Op: "Go", K: i})
 		if r.Pct(20) {
 			prog = append(prog, sim.Op{Op: "Wait"})
